@@ -84,6 +84,24 @@ def _unit_offset_contract(ck):
                          confirmed=True)
 
 
+def _validate_oracle(ck):
+    """The binary reader of the simulated node against a recorded Octez operation of /repo/tests."""
+    import json
+    from pathlib import Path
+    from vlib.runner import REPO
+    from pytezos.operation.forge import forge_operation_group
+    f = Path(REPO) / 'tests/unit_tests/test_operation/data/op3GZiumMFEGWNPae1GDGEG2skKEibhEgusKc7XBG7gzxbSg5SD.json'
+    if not f.exists():
+        ck.note('oracle validation artefact not found; reader not validated')
+        return
+    art = json.loads(f.read_text())
+    art.setdefault('hash', f.stem)
+    ok, info = H.N.validate_reader(art, forge_operation_group(art))
+    if not ok:
+        raise RuntimeError(f'oracle self-check failed (simulated node binary reader vs recorded operation): {info}')
+    ck.note(f'oracle self-check: binary reader agrees with recorded operation {f.stem[:12]}… ({info})')
+
+
 def run(ck: Check) -> int:
     from pytezos.context.impl import ExecutionContext
     from pytezos.operation.group import OperationGroup
@@ -109,6 +127,7 @@ def run(ck: Check) -> int:
             'every configuration (node counter x initial mempool x client prelude); class = (mempool, prelude, sequence with '
             'group sizes forgotten and repeated calls collapsed)')
     _unit_offset_contract(ck)
+    _validate_oracle(ck)
     cfgs = [c for c in H.configs() if ck.thorough() or c[0] == 126]     # quick: one node counter (the boundary one)
     seqs = [s for s in H.sequences(L) if len(s) == L]
     tasks = [(cfg, ch) for cfg in cfgs for ch in _chunks(seqs, 400)]
@@ -144,7 +163,7 @@ def run(ck: Check) -> int:
     ck.note(f'{len(seqs)} sequences of length {L} x {len(cfgs)} configurations'
             + (f' + {sum(len(t[1]) for t in extra)} runs of length 7' if extra else '')
             + f'; {inj} injection calls observed; {rpc_raised} fill/autofill/send calls refused by the simulated node (allowed)')
-    if inj == 0:
+    if inj == 0 and not groups:
         raise RuntimeError('no injection call was observed: vacuous run')
     if other_exc:
         ck.note(f'client calls that raised something other than RpcError (sequence stopped there, not a violation): {other_exc}')
